@@ -5,6 +5,7 @@ import (
 	"strings"
 	"testing"
 
+	"github.com/apache/arrow-go/v18/arrow"
 	"pgregory.net/rapid"
 
 	"verifharness/lib"
@@ -17,6 +18,9 @@ type c16Turn struct {
 	Before   [][2]string   `json:"meta_before,omitempty"` // user metadata placed before the tokens
 	After    [][2]string   `json:"meta_after,omitempty"`  // metadata placed after the tokens (may repeat framework keys)
 	Cancel   bool          `json:"cancel,omitempty"`
+	// Bare: the cancel continuation carries the empty-schema batch a client
+	// sends when it has no input to give, not an input-shaped one
+	Bare bool `json:"bare,omitempty"`
 }
 
 type c16Case struct {
@@ -36,6 +40,20 @@ func genUserMeta(t *rapid.T, label string, allowFramework bool) [][2]string {
 		out = append(out, [2]string{pool[rapid.IntRange(0, len(pool)-1).Draw(t, label+"k")], lib.GenString(t, label+"v")})
 	}
 	return out
+}
+
+func metaKeys(kv [][2]string) (out []string) {
+	for _, e := range kv {
+		out = append(out, e[0])
+	}
+	return
+}
+
+func metaVals(kv [][2]string) (out []string) {
+	for _, e := range kv {
+		out = append(out, e[1])
+	}
+	return
 }
 
 func genC16(t *rapid.T) c16Case {
@@ -60,6 +78,7 @@ func genC16(t *rapid.T) c16Case {
 		tu.After = genUserMeta(t, "a", true)
 		if rapid.IntRange(0, 7).Draw(t, "cancel") == 0 {
 			tu.Cancel = true
+			tu.Bare = rapid.Bool().Draw(t, "barecancel")
 		}
 		c.Turns = append(c.Turns, tu)
 	}
@@ -88,6 +107,13 @@ func runC16(c c16Case) (out lib.Outcome) {
 		in.Meta = tu.Before
 		// tokens go in the middle: Before, tokens, After
 		batch := in.Batch()
+		if tu.Cancel && tu.Bare {
+			batch = nil // ContinuationBody sends the empty-schema batch
+			if len(tu.Before) > 0 {
+				batch = lib.WithMeta(lib.EmptyBatch(arrow.NewSchema(nil, nil)), metaKeys(tu.Before), metaVals(tu.Before))
+			}
+			out.Label("cancel-bare")
+		}
 		var extra [][2]string
 		extra = append(extra, tu.After...)
 		if tu.Cancel {
@@ -234,11 +260,11 @@ func runC16(c c16Case) (out lib.Outcome) {
 
 var propC16 = lib.Prop[c16Case]{
 	ID: "C16",
-	Rule: "exchange histories of 1-6 continuations against scripted exchange methods (static, with header, dynamic): per-turn outcomes emit/error/panic/no-emit/double-emit/finish-on-exchange, per-emit metadata incl. a user key equal to the cursor key, request metadata placed before and after the tokens incl. duplicate framework keys, cancel at any turn, canceller or not; " +
+	Rule: "exchange histories of 1-6 continuations against scripted exchange methods (static, with header, dynamic): per-turn outcomes emit/error/panic/no-emit/double-emit/finish-on-exchange, per-emit metadata incl. a user key equal to the cursor key, request metadata placed before and after the tokens incl. duplicate framework keys, cancel at any turn (carrying an input-shaped batch or the bare empty-schema one), canceller or not; " +
 		"oracle per request: exactly one Exchange call; accepted -> one data batch carrying a fresh cursor that the next turn accepts; failed -> one exception and no cursor; cancel -> hook once, empty stream, no cursor; handler InputMetadata = request metadata minus the three framework keys in order and never a token. Non-trivial: >=2 executed turns with user metadata present.",
 	Gen:          genC16,
 	Run:          runC16,
-	Essential:    []string{"cancel", "failed-turn", "user-metadata", "cursor-key-collision"},
+	Essential:    []string{"cancel", "cancel-bare", "failed-turn", "user-metadata", "cursor-key-collision"},
 	EssentialMin: 200,
 }
 
